@@ -218,6 +218,22 @@ class Program:
         for m in self.modules.values():
             for c in m.classes.values():
                 c.bases = [self.resolve_class(m, b) or self._base_name(m, b) for b in c.node.bases]
+        # names / attribute names of containers that some code changes in place (item assignment, mutator call, `del`,
+        # augmented assignment): a dict display bound to such a name is not a constant table
+        self.mutated_names, self.mutated_attrs = set(), set()
+        for m in self.modules.values():
+            for n in ast.walk(m.tree):
+                tgt = None
+                if isinstance(n, ast.Subscript) and isinstance(n.ctx, (ast.Store, ast.Del)):
+                    tgt = n.value
+                elif isinstance(n, ast.Call) and isinstance(n.func, ast.Attribute) and n.func.attr in MUTATORS:
+                    tgt = n.func.value
+                elif isinstance(n, ast.AugAssign):
+                    tgt = n.target.value if isinstance(n.target, ast.Subscript) else n.target
+                if isinstance(tgt, ast.Name):
+                    self.mutated_names.add(tgt.id)
+                elif isinstance(tgt, ast.Attribute):
+                    self.mutated_attrs.add(tgt.attr)
         self.hazards = []               # constructs that are wrong wherever they occur, met in the analysed code
         self._hazard_keys = set()
         self._fn_hazards, self._class_hazards = self._static_hazards()
@@ -3373,7 +3389,7 @@ class Summariser:
                 m, node = r[1]
                 if isinstance(node, ast.Constant):
                     return ("const", node.value)
-                v = self._const_term(m, node)
+                v = self._const_term(m, node) if e.id not in self.prog.mutated_names else None
                 return v if v is not None else ("global", f"{m.name}.{e.id}")
             if r and r[0] == "class":
                 return ("global", r[1].qual)
@@ -3417,7 +3433,7 @@ class Summariser:
                         for k in self.prog.mro(self.cls):
                             if e.attr in k.class_attrs:
                                 # names in the class body are names of the module that defines the class
-                                v = self._const_term(k.module, k.class_attrs[e.attr])
+                                v = self._const_term(k.module, k.class_attrs[e.attr]) if e.attr not in self.prog.mutated_attrs else None
                                 if v is None and isinstance(k.class_attrs[e.attr], ast.Name):
                                     r = self.prog.resolve_name(k.module, k.class_attrs[e.attr].id)
                                     if r and r[0] == "module":
@@ -4151,6 +4167,13 @@ class Summariser:
                 if f.attr == "get" and len(args) in (1, 2) and args[0][0] == "const":
                     hit = [v for k, v in recv[1] if k == args[0]]
                     return hit[0] if hit else (args[1] if len(args) == 2 else ("const", None))
+                if f.attr == "get" and len(args) in (1, 2) and len(recv[1]) <= 4 and \
+                        all(isinstance(k[1], (str, int)) and not isinstance(k[1], bool) for k, _ in recv[1]):
+                    # TABLE.get(key, default) with a key that is not known: the entry whose key it equals, else the default
+                    out = args[1] if len(args) == 2 else ("const", None)
+                    for k, v in reversed(recv[1]):
+                        out = gate(cmp_term("==", args[0], k), v, out)
+                    return out
             if f.attr in SET_ALGEBRA and len(args) == 1 and not kwargs:
                 return ("op", SET_ALGEBRA[f.attr], recv, args[0])
             if f.attr == "__getitem__" and len(args) == 1 and not kwargs:
@@ -5511,6 +5534,8 @@ class Summariser:
                     return ("global", "builtins." + node.id)
                 return None
             if r[0] == "const":
+                if node.id in self.prog.mutated_names and not isinstance(r[1][1], ast.Constant):
+                    return None         # a module-level container that is changed in place somewhere: not a constant
                 return self._const_term(r[1][0], r[1][1], depth + 1)
             if r[0] == "class":
                 return ("global", r[1].qual)
@@ -5520,7 +5545,7 @@ class Summariser:
                 return ("global", r[1])
             return None
         if isinstance(node, ast.Attribute):
-            if isinstance(node.value, ast.Name):
+            if isinstance(node.value, ast.Name) and node.attr not in self.prog.mutated_attrs:
                 r = self.prog.resolve_name(m, node.value.id)
                 if r and r[0] == "class":
                     # Class.ATTR: a constant of the class body, unless something assigns the attribute elsewhere
